@@ -86,6 +86,25 @@ func substTerm(t *Term, m map[int]*Term, memo map[int]*Term) *Term {
 	return r
 }
 
+func occurs(v *Term, t *Term, memo map[int]bool) bool {
+	if t == v {
+		return true
+	}
+	if r, ok := memo[t.ID]; ok {
+		return r
+	}
+	r := false
+	for _, a := range t.Args {
+		if occurs(v, a, memo) {
+			r = true
+			break
+		}
+	}
+	memo[t.ID] = r
+	return r
+}
+
+// constEqOf recognises x = c (integer variable, constant) and s = t (string variable, any term without s).
 func constEqOf(a *Term) (*Term, *Term, bool) {
 	if a.Op != "=" || len(a.Args) != 2 {
 		return nil, nil, false
@@ -96,6 +115,14 @@ func constEqOf(a *Term) (*Term, *Term, bool) {
 	}
 	if y.Op == "var" && y.Sort == SInt && x.isI() {
 		return y, x, true
+	}
+	if x.Sort == SStr {
+		if x.Op == "var" && y.Op != "var" && !occurs(x, y, map[int]bool{}) {
+			return x, y, true
+		}
+		if y.Op == "var" && x.Op != "var" && !occurs(y, x, map[int]bool{}) {
+			return y, x, true
+		}
 	}
 	return nil, nil, false
 }
